@@ -350,6 +350,9 @@ def py_float_or_none(tok):
 
 def ctok(tok):
     val = py_float_or_none(tok)
+    if val is None and tok[-1:].lower() == 'm' and len(tok) > 1:
+        # xM of a data card: the value of the token is its multiplier
+        val = py_float_or_none(tok[:-1])
     if val is None or abs(val) > 1e15:
         return f'(mkTok {cstr(tok)} 0%float 0%Z)'
     return f'(mkTok {cstr(tok)} {cfloat(val)} {cz(int(val))})'
